@@ -244,7 +244,10 @@ Definition src_facts : facts := {|
   f_skip_both := %s;
   f_filter_in_try := %s |}.
 ''' % (saved, coq_bool(fin), '[' + '; '.join('%d' % ord(c) for c in suf) + ']%N', ap, coq_bool(skip_both), coq_bool(filt_try))
-    write_if_changed('GitRefsFacts.v', text)
+    if '--stdout' in sys.argv[1:]:
+        sys.stdout.write(text)
+    else:
+        write_if_changed('GitRefsFacts.v', text)
 
 
 if __name__ == '__main__':
